@@ -109,11 +109,6 @@ func (c *RC) flagDiscipline(r *RuleResult, cb, flagLoc, resPrefix string) {
 			r.fail(s.Fn.Name+"/"+cb+"/flag-unset via "+chainNames(f.Chain), c.Prog.Pos(s.Node), f.String())
 		}
 	}
-	vp := (*Term)(nil)
-	if c.A.epochWriter != nil {
-		vp = mkTerm(KParam, c.A.epochViewParm.Name())
-		vp.Unsigned = true
-	}
 	ws := c.writesTo(flagLoc)
 	if len(ws) < 2 {
 		r.unresolved("writes of " + flagLoc + " (set and clear)")
@@ -135,9 +130,10 @@ func (c *RC) flagDiscipline(r *RuleResult, cb, flagLoc, resPrefix string) {
 					r.fail(s.Fn.Name+"/set:"+flagLoc, c.Prog.Pos(s.Node), flagLoc+" set to true on a path where "+cb+" did not return nil: {"+sn.Trail+"}")
 				}
 			case sn.Val != nil && sn.Val.S == "false":
-				good := s.Fn == c.A.epochWriter
+				good := c.inEpoch(s.Fn)
 				if good {
-					if v, ok := sn.F.value(mkAtom("eq", vp, tZero)); !ok || !v {
+					sn0 := sn
+					if f := c.epochDemand().proveSnap(s, sn0, c.viewIsZero(), 0); f != nil {
 						good = false
 					}
 				}
@@ -264,7 +260,7 @@ func ruleCacheObl(c *RC) *RuleResult {
 				v := sn.Val
 				switch {
 				case v != nil && v.K == KNil:
-					if s.Fn == c.A.epochWriter {
+					if c.inEpoch(s.Fn) {
 						r.ok(loc + " = nil in the epoch writer")
 					} else {
 						r.ok(loc + " = nil in " + s.Fn.Name)
@@ -433,7 +429,12 @@ func ruleResetCover(c *RC) *RuleResult {
 	// per-validator tables are sized from the new validator list
 	info := ew.Pkg.TypesInfo
 	sized := map[string]bool{}
-	ast.Inspect(ew.Decl.Body, func(n ast.Node) bool {
+	for _, cf := range c.Prog.dbftFuncs() {
+	if !c.inEpoch(cf) {
+		continue
+	}
+	cfn := cf
+	ast.Inspect(cf.Decl.Body, func(n ast.Node) bool {
 		as, ok := n.(*ast.AssignStmt)
 		if !ok || len(as.Lhs) != 1 || len(as.Rhs) != 1 {
 			return true
@@ -447,11 +448,12 @@ func ruleResetCover(c *RC) *RuleResult {
 			return true
 		}
 		// second argument must be len(Validators) or a local assigned from it
-		if isLenValidators(info, ew, call.Args[len(call.Args)-1]) {
+		if isLenValidators(info, cfn, call.Args[len(call.Args)-1]) {
 			sized[sel.Sel.Name] = true
 		}
 		return true
 	})
+	}
 	for _, t := range append(append([]string{}, payloadTables...), "LastSeenMessage") {
 		r.Sites++
 		if sized[t] {
@@ -463,7 +465,7 @@ func ruleResetCover(c *RC) *RuleResult {
 	// MyIndex ← GetKeyPair(Validators) and after Validators is assigned
 	r.Sites++
 	okKP := false
-	for _, s := range c.A.FnSites[ew] {
+	for _, s := range c.epochSites() {
 		if s.Kind == "call" && s.Callee == "cb:GetKeyPair" {
 			for _, sn := range s.Snaps {
 				if len(sn.Args) == 1 && sn.Args[0].S == "ctx.Validators" {
@@ -729,7 +731,7 @@ func ruleCacheAgree(c *RC) *RuleResult {
 	if or := c.API["OnReceive"]; or != nil {
 		found := false
 		for _, s := range c.A.FnSites[or] {
-			if s.Kind == "call" && s.Target == writer {
+			if s.Kind == "call" && s.Target != nil && c.reachesFn(s.Target, writer, 0) {
 				found = true
 				r.Sites++
 				bad := nodeStateDependence(s)
@@ -820,6 +822,19 @@ var perView = map[string]string{
 	"preBlock":            "block caches belong to the current proposal (L2)",
 }
 
+// per-height state: deliberately kept across view changes within a height (each with its reason)
+var perHeight = map[string]string{
+	"Config": "immutable", "Priv": "key pair of the height (A1)", "Pub": "key pair of the height (A1)", "MyIndex": "own index of the height (A1)",
+	"BlockIndex": "the height", "Validators": "validator list of the height", "PrevHash": "ledger tip of the height",
+	"PreCommitPayloads": "pre-commits are valid across views (one per validator per height)", "CommitPayloads": "commits are valid across views",
+	"LastChangeViewPayloads": "refreshed from ChangeViewPayloads on every view change", "LastSeenMessage": "liveness notes of the height",
+	"blockProcessed": "decision flag of the height", "preBlockProcessed": "pre-block flag of the height",
+	"Timestamp": "overwritten by the next accepted/built proposal before any block constructor runs (L2)", "Nonce": "as Timestamp",
+	"lastBlockTimestamp": "previous block's timestamp (re-passed on every epoch write)", "lastBlockTime": "timer reference", "lastBlockIndex": "timer reference",
+	"lastBlockView": "timer reference", "timePerBlock": "configured duration of the height", "maxTimePerBlock": "configured duration of the height",
+	"rttEstimates": "round-trip statistics",
+}
+
 // V-RESET-COVER
 func ruleViewResetCover(c *RC) *RuleResult {
 	r := &RuleResult{Rule: "V-RESET-COVER", Kind: "OWN", Doc: "per-view state is dropped on every path of the epoch writer, for every view"}
@@ -833,6 +848,18 @@ func ruleViewResetCover(c *RC) *RuleResult {
 	have := map[string]bool{}
 	for i := 0; i < st.NumFields(); i++ {
 		have[st.Field(i).Name()] = true
+	}
+	// closed world: every Context field is classified as per-view or per-height; a new field must be reviewed and tabled
+	for i := 0; i < st.NumFields(); i++ {
+		f := st.Field(i).Name()
+		_, pv := perView[f]
+		_, ph := perHeight[f]
+		r.Sites++
+		if pv || ph {
+			r.ok("Context." + f + " classified as " + map[bool]string{true: "per-view", false: "per-height"}[pv])
+		} else {
+			r.fail(ew.Name+"/unclassified:"+f, c.Prog.Pos(ew.Decl), "Context."+f+" is new state that is classified neither as per-view (dropped on every epoch write) nor as per-height (kept across views with a reason): state kept across a view change is how stale proposals leak into later views")
+		}
 	}
 	for f, why := range perView {
 		r.Sites++
@@ -938,7 +965,7 @@ func (c *RC) checkClearedWrites(r *RuleResult, field string) {
 	if !c.collectionField(field) || field == "Validators" {
 		return
 	}
-	for _, s := range c.A.FnSites[c.A.epochWriter] {
+	for _, s := range c.epochSites() {
 		if s.Kind != "write" || s.Loc != "ctx."+field {
 			continue
 		}
@@ -1036,4 +1063,23 @@ func nodeStateDependence(s *Site) string {
 		}
 	}
 	return ""
+}
+
+// reachesFn: from is to, or calls it (through at most two levels of helpers).
+func (c *RC) reachesFn(from, to *FuncInfo, depth int) bool {
+	if from == to {
+		return true
+	}
+	if depth >= 2 {
+		return false
+	}
+	if from.Recv == "DBFT" || from.Recv == "Context" {
+		return false // only through the cache's own methods
+	}
+	for _, s := range c.A.FnSites[from] {
+		if s.Kind == "call" && s.Target != nil && s.Target != from && c.reachesFn(s.Target, to, depth+1) {
+			return true
+		}
+	}
+	return false
 }
